@@ -27,6 +27,7 @@ ASSUMPTIONS = [
 ]
 SHARDS = {"quick": 8, "thorough": 16}
 MIN_REACH = {
+    "earlier_crops_whose_cleanup_hit_an_error": {"quick": 5, "thorough": 100},
     "pipelines_reaped": {"quick": 120, "thorough": 2000},
     "fresh_process_steps": {"quick": 15, "thorough": 300},
     "batches_grown": {"quick": 600, "thorough": 10000},
@@ -146,8 +147,32 @@ def run_case(ctx, case):
                 c0 = xyzpy.Crop(fn=probe.Probe(okind, name="probe"), name=name, parent_dir=tmp, batchsize=2)
                 c0.sow_combos({"zz": [1, 2, 3]}, verbosity=0)
                 xyzpy.Crop(name=name, parent_dir=tmp).grow_missing()
-                r0 = c0.reap()
-            if refmodel.deep_eq(r0, tuple(probe.make(okind, {"zz": v}) for v in (1, 2, 3))):
+                r0 = None
+                if case["pseed"] % 2:
+                    # the clean-up at the end of that reap cannot remove one result file (a straggling worker re-published it,
+                    # an NFS placeholder, a permission): if the reap says so (raises) the user clears the folder by hand; if it
+                    # says nothing, nobody does
+                    import shutil
+                    real_unlink = os.unlink
+                    hit = []
+
+                    def failing_unlink(path, *a, **k):
+                        if str(path).endswith("xyz-result-1.jbdmp") and not hit:
+                            hit.append(path)
+                            raise OSError(39, "Directory not empty (injected)", str(path))
+                        return real_unlink(path, *a, **k)
+                    os.unlink = failing_unlink
+                    try:
+                        r0 = c0.reap()
+                    except OSError:
+                        os.unlink = real_unlink
+                        shutil.rmtree(cropkit.crop_dir(tmp, name), ignore_errors=True)
+                    finally:
+                        os.unlink = real_unlink
+                    ctx.count("earlier_crops_whose_cleanup_hit_an_error")
+                else:
+                    r0 = c0.reap()
+            if r0 is not None and refmodel.deep_eq(r0, tuple(probe.make(okind, {"zz": v}) for v in (1, 2, 3))):
                 return fail("the earlier crop at the same place reaped %r" % (r0,), step="prelude")
             ctx.count("crops_reusing_a_location")
         except Exception as e:
